@@ -131,10 +131,22 @@ type appliedEnt struct {
 const incrSrc = "10.9.8.7:6379"
 
 // observe derives the contract-level observables from the model Redis.
+// the run id the current parser / sender pair runs with and the length of the target's log when it started
+var incrCurRunId string
+var incrCurSince int
+
 func incrObserve(srv *mredis.Server, resume bool, ends []int, ndb int) (applied []appliedEnt, ckpt []int, rid []int, markers, errs int, notes []string) {
 	applied = []appliedEnt{}
 	notes = []string{}
 	log := srv.Log()
+	// databases whose checkpoint offset the CURRENT pair has written: their stored run id must be the one it runs with
+	writtenNow := map[int]bool{}
+	for i := incrCurSince; i < len(log); i++ {
+		e := &log[i]
+		if e.Cmd == "HSET" && e.InExec && e.Err == "" && len(e.Args) == 3 && string(e.Args[1]) == incrSrc+"-"+utils.CheckpointOffset {
+			writtenNow[e.DB] = true
+		}
+	}
 	inBlockBy := map[int]bool{}
 	lastQueuedBy := map[int]*mredis.LogEntry{}
 	for i := range log {
@@ -234,7 +246,11 @@ func incrObserve(srv *mredis.Server, resume bool, ends []int, ndb int) (applied 
 						notes = append(notes, fmt.Sprintf("checkpoint offset %d in db %d is not the end offset of a source command (ends %v)", o, d, ends))
 					}
 				case incrSrc + "-" + utils.CheckpointRunId:
-					rid = append(rid, d)
+					if writtenNow[d] && incrCurRunId != "" && string(f.Value) != incrCurRunId {
+						notes = append(notes, fmt.Sprintf("db %d: the offset was written by a syncer running with run id %q but the stored run id is %q", d, incrCurRunId, f.Value))
+					} else {
+						rid = append(rid, d)
+					}
 				}
 			}
 		}
@@ -443,6 +459,7 @@ func incrOne(tr *tracer.T, cfg *incrIn, pi int, path []map[string]interface{}, h
 		}
 	}
 	start := func(offset int64, startDb int, runId string) bool {
+		incrCurRunId, incrCurSince = runId, len(srv.Log())
 		gmu.Lock()
 		syncConn = srv.AcceptedConns() + 1
 		gmu.Unlock()
@@ -705,6 +722,11 @@ func incrOne(tr *tracer.T, cfg *incrIn, pi int, path []map[string]interface{}, h
 				add(si, "drift", "after the cut the real loader resumes elsewhere than the model: "+lastRestart)
 				drifts++
 				drifted = true
+			}
+			// sometimes the restarted syncer runs with ANOTHER run id than the stored one (the state after the source answered the
+			// resume attempt with a new replication id): whatever it writes from now on must carry that id
+			if rnd.Intn(3) == 0 {
+				runid = fmt.Sprintf("%040x", 0xabc000+pi*16+si)
 			}
 			if !start(off, db, runid) {
 				dead = true
